@@ -2,6 +2,8 @@
 # Re-evaluates every stored seeded change with the quick tier of the check of the property it
 # breaks and writes seeded/RESULTS.md.  /repo is restored after each one.
 cd /verif || exit 2
+export SEED_EVAL_NO_REBUILD=1
+trap 'cd /verif && ./hv_run list >/dev/null 2>&1' EXIT
 out=seeded/RESULTS.md
 echo "| seeded change | property | quick check | violation classes (first few) |" > $out
 echo "|---|---|---|---|" >> $out
